@@ -507,6 +507,54 @@ pub fn run(ctx: &Ctx, rep: &mut Report) {
             user_part(&mut rng, wi, &matrix, &lex, &csv, &mtext, &res, rep);
         }
 
+        // (a'') descriptions around the 256-byte limit of the header field, measured in bytes, characters and UTF-16 units
+        if wi % 4 == 2 {
+            let descs: Vec<String> = vec![
+                String::new(), "a".repeat(255), "a".repeat(256), "a".repeat(257), "京".repeat(85), format!("{}a", "京".repeat(85)),
+                "京".repeat(86), "京".repeat(100), "京".repeat(256), "𠮷".repeat(64), "𠮷".repeat(65), "𠮷".repeat(128), format!("{}é", "a".repeat(255)),
+                "a".repeat(1000),
+            ];
+            for _ in 0..4 {
+                let d = rng.pick(&descs).clone();
+                rep.eval();
+                let mut out = Vec::new();
+                let r = guard(|| {
+                    let mut b = DictBuilder::new_system();
+                    b.set_compile_time(std::time::UNIX_EPOCH + std::time::Duration::from_secs(env::FIXED_TIME_SECS));
+                    b.set_description(d.clone());
+                    b.read_conn(mtext.as_bytes()).map_err(|e| format!("conn: {:?}", e))?;
+                    b.read_lexicon(csv.as_bytes()).map_err(|e| format!("lexicon: {:?}", e))?;
+                    b.resolve().map_err(|e| format!("resolve: {:?}", e))?;
+                    b.compile(&mut out).map_err(|e| format!("compile: {:?}", e))
+                });
+                let what = format!("description of {} bytes / {} characters", d.len(), d.chars().count());
+                let scen = || json!({"world_index": wi, "description": d, "matrix": mtext, "lexicon_csv": csv});
+                rep.count("descriptions_tried", 1);
+                match r {
+                    Err(p) => rep.violation("compile_panic", &p.site, &format!("{}: {}", what, p.msg), "", scen()),
+                    Ok(Err(_)) => {
+                        rep.count("inputs_rejected_with_error", 1);
+                        if d.len() <= 256 {
+                            rep.violation("valid_input_rejected", "DictBuilder::compile", &format!("{} (inside the 256-byte field) but compilation fails", what), "", scen());
+                        }
+                    }
+                    Ok(Ok(())) => {
+                        rep.count("inputs_accepted", 1);
+                        match arbiter(&res, &out, &[], &keys, false, rep) {
+                            Ok(()) => {
+                                // the stored description is what was given
+                                let stored = sudachi::dic::header::Header::parse(&out).map(|h| h.description).unwrap_or_default();
+                                if stored != d {
+                                    rep.violation("stored_string_differs", "Header::parse", &format!("{}: the stored description reads back as {:?}", what, clip(&stored, 60)), "", scen());
+                                }
+                            }
+                            Err((kind, site, msg)) => rep.violation(&kind, &site, &format!("{}: {}", what, msg), "", scen()),
+                        }
+                    }
+                }
+            }
+        }
+
         // (b) sink faults: every offset for small dictionaries, sampled for larger ones
         if wi % 4 == 0 {
             let mut full = Vec::new();
